@@ -231,8 +231,12 @@ def run(ctx):
                 sel = mo.group(1) if mo else None
                 want_f = {f"MAP(os.path.join(os.getcwd(), •),SEL(other.cells[lv]['files'],{sel}))",
                           f"SEL(other.cells[lv]['files'],{sel})"}
-                decidable = mo is not None and (f2 in want_f or f2.startswith(("MAP(", "SEL(", "REP(")))
-                ctx.decide(f2 in want_f, decidable, f"{P}.SIDE-COH", g.site,
+                # any box-independent directory prefix joined in front of the selected name keeps the pairing
+                pm = _re.fullmatch(r"MAP\(os\.path\.join\(([^•]*), •\),(SEL\(.+\))\)", f2)
+                good = f2 in want_f or (pm is not None and sel is not None and
+                                        pm.group(2) == f"SEL(other.cells[lv]['files'],{sel})")
+                decidable = mo is not None and (good or f2.startswith(("MAP(", "SEL(", "REP(")))
+                ctx.decide(good, decidable, f"{P}.SIDE-COH", g.site,
                            f"mode {mode}: box i of a file group takes plotfile 2's file and offset of the same box "
                            f"(both selected by {sel})",
                            f"mode {mode}: side 2's per-box offsets are {o2} but its per-box files are {f2}: every box "
